@@ -16,7 +16,7 @@ LEVEL = "exploration"
 RULE = ("single structural mutations (drop / add / rename of tables, views, indexes, columns; change of column type, NOT "
         "NULL, default, primary-key membership; change of index uniqueness or column list) of libraries created at each "
         "of the 18 versions, both database files on 1.x; every applied-and-confirmed mutation counts (the space is "
-        "finite: all of it in thorough, a seeded sample of every kind on every version in quick); controls: unmutated "
+        "finite and enumerated completely in both tiers); controls: unmutated "
         "libraries and all reference libraries; distinct by (version, file, mutation)")
 
 
@@ -35,7 +35,7 @@ def mut_name(m):
 
 def run(ctx):
     root = runner.scratch_dir("djc17_")
-    frac = 0.15 if ctx.tier == "quick" else 1.0
+    frac = 1.0   # the whole space takes about ten seconds, so both tiers enumerate it
     try:
         # templates
         tdirs = {}
@@ -120,7 +120,7 @@ def run(ctx):
                     if "exc" not in e:
                         fam = "v2" if is_v2(s_) else "v1"
                         target = m[1] if len(m) > 1 else ""
-                        ctx.violation(f"deviation-not-reported {fam} {name} {dbrel.split('/')[-1]}",
+                        ctx.violation(f"deviation-not-reported {fam} {name} {dbrel.split('/')[-1]} {target}",
                                       f"{s_}: verify() accepts a library whose {dbrel} carries the single deviation {m}", wit)
                     elif "database_inconsistency" not in e["exc"].get("is", []):
                         ctx.violation(f"deviation-wrong-exception {name} {e['exc']['type']}",
@@ -129,7 +129,7 @@ def run(ctx):
                     shutil.rmtree(os.path.join(root, cid), ignore_errors=True)
     finally:
         shutil.rmtree(root, ignore_errors=True)
-    ctx.exhaustive = ctx.tier != "quick"
+    ctx.exhaustive = True
     ctx.sample({"kinds": sorted(ctx.extra.get("mutations_judged", {}))})
     ctx.assumptions += ["a mutation is judged only if integrity_check passes, the before/after diff of table_info/index_list shows "
                         "exactly the intended change, and load_database() still accepts the library",
@@ -163,6 +163,6 @@ def replay(ctx, doc):
         if len(ev) > 1 and "exc" not in ev[0] and "exc" not in ev[1]:
             fam = "v2" if is_v2(r["schema"]) else "v1"
             m = tuple(r["mutation"])
-            ctx.violation(f"deviation-not-reported {fam} {mut_name(m)} {r['file'].split('/')[-1]}", "verify() accepts the mutated library", r)
+            ctx.violation(f"deviation-not-reported {fam} {mut_name(m)} {r['file'].split('/')[-1]} {m[1] if len(m) > 1 else ''}", "verify() accepts the mutated library", r)
     finally:
         shutil.rmtree(root, ignore_errors=True)
